@@ -2,12 +2,12 @@ SPECIFICATION Spec
 CONSTANTS
   Names <- QNames
   MaxDepth = 2
-  Perms <- TPerms
+  Perms <- QPerms
   Datas <- QDatas
-  Times <- QTimes
+  Times <- NoTimes
   RootOps = FALSE
   MaxTreeDepth = 2
-  MaxNodes = 4
-  FlagSets = "all"
+  MaxNodes = 3
+  FlagSets = "few"
 INVARIANTS TypeOK InvWF ModelProps
 CHECK_DEADLOCK FALSE
